@@ -120,13 +120,10 @@ func gen(seed uint64, idx int) *ccase {
 		c.Series = r.Range(1, 50)
 	}
 	// batch / point budget of a case (CPU: every POST is a real HTTP round trip under -race);
-	// the thorough tier makes one case in 16 a big one (up to 2 000 points x 50 series)
+	// the thorough tier makes one case in 30 a big one (up to 2 000 points x 50 series)
 	maxBatches, maxPoints := 150, 15000
-	if mon.Thorough() {
-		maxBatches, maxPoints = 200, 20000
-		if r.Chance(1, 16) {
-			maxBatches, maxPoints = 1000, 100000
-		}
+	if mon.Thorough() && r.Chance(1, 30) {
+		maxBatches, maxPoints = 600, 100000
 	}
 	budget := c.FlushMaxNum * maxBatches
 	if budget > maxPoints {
@@ -910,19 +907,26 @@ shutwait:
 
 	// ---- what got acknowledged
 	quiesce()
+	// snapshot of the server's log (late handlers of abandoned requests may still be running)
 	srv.mu.Lock()
-	reqs := make([]*reqRec, len(srv.reqs))
-	copy(reqs, srv.reqs)
-	firstAck := srv.firstAck
+	reqs := make([]reqRec, len(srv.reqs))
+	for i, r := range srv.reqs {
+		reqs[i] = *r // Pts is never modified after it was set
+	}
+	firstAck := make([][]int64, len(srv.firstAck))
+	for i := range firstAck {
+		firstAck[i] = append([]int64(nil), srv.firstAck[i]...)
+	}
+	distinctFinal := srv.distinct
 	corrupt := append([]string(nil), srv.corrupt...)
 	badHeader := srv.badHeader
 	cfgPosts := srv.cfgPosts
 	srv.mu.Unlock()
 	// requests still being read have Ev 0: they decided nothing
 	var evs []*reqRec
-	for _, r := range reqs {
-		if r.Ev != 0 {
-			evs = append(evs, r)
+	for i := range reqs {
+		if reqs[i].Ev != 0 {
+			evs = append(evs, &reqs[i])
 		}
 	}
 	sort.Slice(evs, func(i, j int) bool { return evs[i].Ev < evs[j].Ev })
@@ -947,7 +951,7 @@ shutwait:
 	if !returned {
 		shutState = "Shutdown() never returned"
 	}
-	sum := map[string]interface{}{"dispatched": dispatched, "queue_full_counted": drops, "accepted": accepted, "acknowledged_distinct": srv.distinctAcked(),
+	sum := map[string]interface{}{"dispatched": dispatched, "queue_full_counted": drops, "accepted": accepted, "acknowledged_distinct": distinctFinal,
 		"requests": len(reqs), "shutdown_returned": returned, "pending_when_shutdown_was_called": pending}
 	if exact || c.Blocking {
 		// every individual hand-off is attributable
@@ -959,7 +963,7 @@ shutwait:
 				viol("unacked", ex, "%d metrics were neither counted as queue_full during their Dispatch call nor contained in any POST answered 2xx after bounded quiescence (endpoint idle > %v; %s)", len(missing), idle, shutState)
 			}
 		}
-	} else if got := srv.distinctAcked(); got < accepted {
+	} else if got := distinctFinal; got < accepted {
 		ex := map[string]interface{}{"summary": sum, "unacknowledged_sample": ptsSample(missing, 30)}
 		viol("unacked", ex, "%d dispatched, %d counted as queue_full, but only %d distinct metrics are in POSTs answered 2xx after bounded quiescence: %d accepted metrics unacknowledged or dropped uncounted (endpoint idle > %v; %s)", dispatched, drops, got, accepted-got, idle, shutState)
 	} else if got > accepted {
@@ -1088,7 +1092,7 @@ shutwait:
 	st.add("failed_batches_later_acknowledged", retries)
 	st.add("points_dispatched", dispatched)
 	st.add("points_counted_queue_full", drops)
-	st.add("points_acknowledged_distinct", srv.distinctAcked())
+	st.add("points_acknowledged_distinct", distinctFinal)
 	st.add("config_posts", cfgPosts)
 	st.add("bad_request_headers", badHeader)
 	st.add("route_flush_error_counter", int(mon.Counter(errKey)-err0))
